@@ -92,6 +92,8 @@ func (w *World) runDriver() (ok bool) {
 	case "solo5":
 		w.driverSolo(5)
 		w.ended = true
+	case "orders":
+		w.driverOrders()
 	case "macro2":
 		w.driverMacro(2)
 	case "macro3":
@@ -515,5 +517,123 @@ func (w *World) driverSolo(rounds int) {
 			w.Deliver(x, w.byzVote(b, idx(b), kproto.PrecommitType, h, round, types.BlockID{}, "solo"))
 		}
 		w.fireIf(x, stepPrecommitWait, round)
+	}
+}
+
+// ---------------------------------------------------------------------------------------------
+// orders: ONE correct validator x; a valid block A is proposed in round 1 by another validator, and the four
+// message groups P (the proposal), D (the block parts), V (+2/3 prevotes for A) and C (+2/3 precommits for A),
+// all of round 1, reach x in every one of the 24 orders. Before the first group x is either still in round 1
+// or has been moved to round 2 by +2/3 nil prevotes of round 2 (the others decide in a round x has left);
+// after each group x's pending timeout either fires or does not. All alternatives cost 0: the product
+// (2 x 24 x 2^4 = 768 executions per turn) is enumerated; afterwards the proposal and the parts are offered
+// again while x lacks them (re-gossip). Whatever the order, x then holds +2/3 precommits and the complete block, so the liveness oracle (C04) demands the commit; the per-node rules of C03 judge
+// the same executions.
+var orderPerms = func() [][]int {
+	var out [][]int
+	var rec func(cur []int, used int)
+	rec = func(cur []int, used int) {
+		if len(cur) == 4 {
+			out = append(out, append([]int{}, cur...))
+			return
+		}
+		for k := 0; k < 4; k++ {
+			if used&(1<<uint(k)) == 0 {
+				rec(append(cur, k), used|1<<uint(k))
+			}
+		}
+	}
+	rec(nil, 0)
+	return out
+}()
+
+func (w *World) driverOrders() {
+	if len(w.Correct) != 1 {
+		panic("orders driver needs exactly one correct validator")
+	}
+	x := w.Correct[0]
+	n := w.Nodes[x]
+	w.fireAll(1)
+	h := n.RS().Height
+	var others []int
+	for b := range w.IsByz {
+		others = append(others, b)
+	}
+	sort.Ints(others)
+	idx := func(b int) uint32 {
+		vi, _ := n.RS().Validators.GetByAddress(w.Addrs[b])
+		return uint32(vi)
+	}
+	proposer := w.valIndexOfAddr(n.RS().Validators.GetProposer().Address)
+	if proposer == x {
+		panic("orders driver: x must not be the round-1 proposer (use SoloTurn >= 2)")
+	}
+	bi := w.byzBlock(proposer, x, "F1")
+	if bi == nil {
+		panic("orders driver: no block")
+	}
+	data := w.byzProposal(proposer, bi, h, 1, 0, "orders")
+	ch := w.X.Choose(make([]int, 2*len(orderPerms)*16), "orders")
+	late, perm, fires := ch%2, orderPerms[(ch/2)%len(orderPerms)], ch/(2*len(orderPerms))
+	names := []string{"P", "D", "V", "C"}
+	lab := fmt.Sprintf("late%d:", late)
+	for k, g := range perm {
+		lab += names[g]
+		if fires&(1<<uint(k)) != 0 {
+			lab += "t"
+		}
+	}
+	w.Deviations = append(w.Deviations, lab)
+	alive := func() bool { return n.Failed == nil && n.RS().Height == h }
+	if late == 1 {
+		for _, b := range others {
+			if alive() {
+				w.Deliver(x, w.byzVote(b, idx(b), kproto.PrevoteType, h, 2, types.BlockID{}, "orders"))
+			}
+		}
+	}
+	for k, g := range perm {
+		switch g {
+		case 0:
+			if alive() {
+				w.Deliver(x, data[0])
+			}
+		case 1:
+			for _, m := range data[1:] {
+				if alive() {
+					w.Deliver(x, m)
+				}
+			}
+		case 2, 3:
+			t := kproto.PrevoteType
+			if g == 3 {
+				t = kproto.PrecommitType
+			}
+			for _, b := range others {
+				if alive() {
+					w.Deliver(x, w.byzVote(b, idx(b), t, h, 1, bi.ID, "orders"))
+				}
+			}
+		}
+		if fires&(1<<uint(k)) != 0 && alive() {
+			if to := n.PendingTimeout(); to != nil && to.Height == h {
+				w.Timeout(x)
+			}
+		}
+	}
+	// after the adversarial order: what correct peers keep gossiping. A proposal or a part that x could not use
+	// when it arrived (no part-set header yet, other round) is sent again once x has announced what it lacks
+	// (gossipDataRoutine works from the peer's announced round state), so it is offered again while x lacks it.
+	for pass := 0; pass < 2; pass++ {
+		if alive() && n.RS().Proposal == nil && n.RS().Round == 1 {
+			w.Deliver(x, data[0])
+		}
+		if alive() && n.RS().ProposalBlock == nil {
+			for _, m := range data[1:] {
+				if alive() {
+					w.Deliver(x, m)
+				}
+			}
+		}
 	}
 }
